@@ -158,8 +158,10 @@ class RereadState:
         cc.sample(summary(init, model))
         self.exp = [(r['eflr'], r['type'], G.expected_payload(r, l), m['vr_pos'], m['lrsh_pos'])
                     for r, l, m in zip(init['records'], init['layouts'], model['records'])]
-        self.fr = File.FileRead(engine.handle(data))
+        self.fh = engine.handle(data)
+        self.fr = File.FileRead(self.fh)
         self.fr._enter()
+        self.sul_m = dict(init['sul'])
         self.passes = 0
         self.others = 0
 
@@ -219,6 +221,22 @@ def reread_step(s, op, cc):
         s.passes += 1
         return
     s.others += 1
+    if kind == 'relabel':
+        # the reader is left, the storage unit label of the file object it was given is rewritten in place (another sequence
+        # number and identifier: a storage unit re-numbered within its set), and the same reader is entered again
+        s.fr._exit()
+        s.sul_m = dict(s.sul_m, seq=1 + op['seq'] % 9999, ident=(b'SET %d' % op['seq']).ljust(60))
+        label = G.encode_sul(s.sul_m)
+        s.fh.getbuffer()[0:len(label)] = label
+        s.fr._enter()
+        sul = s.fr.sul
+        exp_sul = (s.sul_m['seq'], s.sul_m['version'], b'RECORD', s.sul_m['max_len'], s.sul_m['ident'])
+        got_sul = (sul.storage_unit_sequence_number, bytes(sul.dlis_version), bytes(sul.storage_unit_structure),
+                   sul.maximum_record_length, bytes(sul.storage_set_identifier))
+        cc.cls('reread:entered-again-after-the-label-was-rewritten')
+        if got_sul != exp_sul:
+            cc.dev('sul-fields', 'sul-field-value:reader-entered-again', 'reported %r, the file now holds %r' % (got_sul, exp_sul))
+        return
     if kind == 'visible_records':
         vrs = [(v.position, v.length) for v in s.fr.iter_visible_records()]
         if len(vrs) != s.model['vr_count']:
@@ -264,6 +282,10 @@ class RereadMachine(HistoryMachine):
     @rule(kind=st.sampled_from(['visible_records', 'validate', 'positions']))
     def other(self, kind):
         self.op({'op': kind})
+
+    @rule(seq=st.integers(0, 20000))
+    def relabel(self, seq):
+        self.op({'op': 'relabel', 'seq': seq})
 
     @rule(k=st.integers(0, 5))
     def fetch(self, k):
@@ -316,3 +338,4 @@ def parts(tier):
 
 
 RULE += '  Added after the seeding rounds: encrypted segments with encryption packets, with arbitrary (cipher) pad bytes and with every attribute bit set; storage unit label numbers padded with mixed zeros and blanks; the reader is handed a file object positioned at start / end / middle / byte 1.'
+RULE += '  Round 16: the reread history also leaves the reader, rewrites the storage unit label of its file object in place and enters it again.'
